@@ -548,6 +548,14 @@ func (ex *Exec) prepareCall(f *Frame, c *ssa.CallCommon) (Value, []Value) {
 		if recv.T == nil {
 			panic(goPanic{"nil interface method call " + c.Method.Name()})
 		}
+		if rt, ok := recv.V.(reflType); ok {
+			// method of the executor's reflect.Type model
+			var margs []Value
+			for _, a := range c.Args {
+				margs = append(margs, ex.reg(f, a))
+			}
+			return &Closure{ReflMeth: c.Method.Name(), ReflRecv: rt, ReflRes: c.Signature().Results()}, margs
+		}
 		m := ex.Prog.Prog.LookupMethod(recv.T, c.Method.Pkg(), c.Method.Name())
 		if m == nil {
 			panic(unsupported{fmt.Sprintf("method %s of %v not found", c.Method.Name(), recv.T)})
@@ -572,6 +580,20 @@ func (ex *Exec) invoke(g *G, f *Frame, call *ssa.Call, fnv Value, args []Value, 
 	var retTo ssa.Value
 	if call != nil {
 		retTo = call
+	}
+	if cl.ReflMeth != "" {
+		var rtyp types.Type
+		if cl.ReflRes != nil && cl.ReflRes.Len() == 1 {
+			rtyp = cl.ReflRes.At(0).Type()
+		}
+		res := ex.reflTypeMethod(cl.ReflMeth, cl.ReflRecv, args, rtyp)
+		if retTo != nil {
+			ex.setReg(f, retTo, res)
+		}
+		if !isDefer {
+			f.pc++
+		}
+		return
 	}
 	if cl.Builtin != nil {
 		var ct *ssa.CallCommon
